@@ -144,12 +144,31 @@ def r1_r2_r3(ctx):
               "so multiplier*current can exceed 2^64 in generate (arithmetic overflow panic)" % (cur, m - 1))
     # writers
     n_w = 0
+
+    def hir_writes(fpath, field):
+        """does the (normalised) source of fpath assign to / mutably borrow `<x>.field`?"""
+        f_ = c.fns.get(fpath)
+        if f_ is None or f_.get("body") is None:
+            return True
+        for y in walk(f_["body"]):
+            if y.get("k") == "struct" and "fs" in y and any(isinstance(q, dict) and q.get("k") in ("bind", "ref", "deref") for _, q in y["fs"] if _ == field):
+                return True      # the field is still bound through a pattern: what happens through that binding is not visible here
+            tgt = None
+            if y.get("k") in ("assign", "assignop"):
+                tgt = y["l"]
+            elif y.get("k") == "ref" and y.get("mut"):
+                tgt = y["x"]
+            if tgt is not None and any(z.get("k") == "field" and z.get("f") == field for z in walk(tgt)):
+                return True
+        return False
     for mk, mv in c.mir.items():
         for w in mv["facts"]["writes"] + mv["facts"]["mutborrows"]:
             if w["adt"] == GEN:
                 n_w += 1
                 # (create may finish the value it is building field by field: those writes are part of the abstract evaluation of create above)
                 ok = (mv["parent"] == GEN + "::generate" and w["field"] == "current") or mv["parent"] == GEN + "::create"
+                if not ok and w in mv["facts"]["mutborrows"] and mv["parent"] == GEN + "::generate" and not hir_writes(GEN + "::generate", w["field"]):
+                    ok = True    # `let Self { modulus, .. } = self` borrows every field mutably; a borrow nothing is written through is a read
                 ctx.check("R18.1", "writer:%s.%s" % (mv["parent"], w["field"]), ok, "generator-field-written-elsewhere",
                           "%s:%s" % (mk, w["line"]), "only generate writes current", "%s writes Generator.%s" % (mk, w["field"]))
     for f in c.adts[GEN]["variants"][0]["fields"]:
